@@ -41,7 +41,7 @@ def rel_offset(part, target, instruction_address, instruction_size):
 
 INZONE = f'(self._memzone is not None and ({XV} > self._memzone._end or {XV} < self._memzone._start))'
 OFF = f'rel_offset(self, {XV}, value_of(instruction_address), instruction_size)'
-contract(R, props=['C12', 'C14'],
+contract(R, props=['C12'],       # (C14's "value its field cannot hold" is the width check of PackedBits.append_bits)
          raises={'ValueError': 'instruction_address is None',
                  'SystemExit': f'instruction_address is not None and ({XF} or {INZONE}'
                                f' or (self._max_relative_value is not None and {OFF} > self._max_relative_value)'
